@@ -1,7 +1,12 @@
 """C06 — registries consult exactly their current base chain, in resolution order."""
 from . import regcommon, worldcommon
 
-THEOREMS = ["ZI.RO.C03_ro_eq_c3", "ZI.RO.roFull_valid", "ZI.Lookup.lookupRec_eq_first"]
+THEOREMS = ["ZI.Registry.C06_ro", "ZI.Registry.C06_subregistries", "ZI.Registry.run_inv", "ZI.Registry.step_inv", "ZI.Registry.setBases_inv",
+            "ZI.Registry.rebuild_inv", "ZI.Registry.push_reaches", "ZI.Registry.push_keeps", "ZI.Registry.roFull_congr", "ZI.Registry.moveSubreg_spec",
+            "ZI.Registry.changed_sameStr", "ZI.Registry.demo_wf", "ZI.Registry.verifyingChanged_fresh",
+            "ZI.RO.C03_ro_eq_c3", "ZI.RO.roFull_valid", "ZI.Lookup.lookupRec_eq_first"]
+NOT_PROVED = ["C06_ro for the generation-checking flavour (VerifyingAdapterRegistry): that an unchanged generation snapshot implies unchanged ancestors' bases "
+              "(needs a ghost history of bases per generation); carried: verifyingChanged_fresh — right after every change notification, incl. the one _verify issues, ro is fresh"]
 PROFILE = dict(weights=[4, 0.7, 1.5, 0.5, 4, 0.2, 0], queries=["lookup", "lookupAll", "subs", "ro"], nregs=(2, 6),
                regbases=[0, 1, 1, 1, 2, 2], extra_queries=2, arity=[0, 1, 1, 2], steps=(6, 30), steps_big=(10, 60), decls=False)
 
@@ -18,6 +23,7 @@ def check(tier):
         "member and lookups from every registry; distinct_nontrivial = `ro` observations checked against the C3 order of the current base graph",
         "ro_queries",
         "registry-layer correspondence (ZI.Registry.setBases/verify/changed vs adapter.py) ",
+        stated_not_proved=NOT_PROVED,
         extra_stream=worldcommon.twin_stream("C06", WORLD_PROFILE, dict(quick=30, thorough=600),
                                              ("lookup", "lookup1", "lookupAll", "names", "qadapter", "subs", "subscribers")))
 
